@@ -460,6 +460,9 @@ func init() {
 				w.Cfg.SoilExt = "csv"
 				for i := range w.Soil.Horizons {
 					w.Soil.Horizons[i].BD = round(r.FRange(0.8, 1.9), 2)
+					if i > 0 && r.Bool(0.3) {
+						w.Soil.Horizons[i].BD = 0 // column present, cell empty: the bulk-density class applies
+					}
 					if r.Bool(0.3) && w.Soil.Horizons[i].Tex[0] != 'H' && w.Cfg.PTF == 0 {
 						w.Soil.Horizons[i].Corg = round(r.FRange(0, 5.8), 2)
 					}
